@@ -375,10 +375,9 @@ Proof.
 Qed.
 
 Lemma sequence_contents f root ext data q r' endo ch fields :
-  Acc f ->
   scope_enc numeric e (S f) (TSeq false root ext) = true ->
   scope_dec e (S f) (TSeq false root ext) = true ->
-  compiles e (S f) (TSeq false root ext) = true ->
+  behaves (tr_of numeric e f) (fun m o => decb f None (m_ty m) data o) data (root ++ flat_additions ext) ch ->
   data = q ++ children_bytes ch ++ r' ->
   closed endo (length q + length (children_bytes ch))%nat r' ->
   forallb bwf ch = true ->
@@ -395,14 +394,13 @@ Lemma sequence_contents f root ext data q r' endo ch fields :
    else match endo with None => Err EDecode | Some en => Ok (v, en) end)
   = Ok (VSeq fields, after_close endo (length q + length (children_bytes ch))).
 Proof.
-  intros IH Hse Hsd Hcp Hd Hcl Hw Hr.
-  cbn [scope_enc] in Hse. cbn [scope_dec] in Hsd. cbn [compiles] in Hcp.
+  intros Hse Hsd Hbeh Hd Hcl Hw Hr.
+  cbn [scope_enc] in Hse. cbn [scope_dec] in Hsd.
   change (additions_flat ext) with (flat_additions ext).
   change (members_of root ext) with (root ++ flat_additions ext).
   remember (flat_additions ext) as adds eqn:Eadds0.
   apply andb_prop in Hse. destruct Hse as [Hnd Hse].
-  apply andb_prop in Hcp. destruct Hcp as [Hcp _].
-  apply andb_prop in Hsd. destruct Hsd as [Hsd Hsd4]. apply andb_prop in Hsd. destruct Hsd as [Hsd Hsd3].
+  apply andb_prop in Hsd. destruct Hsd as [Hsd Hsd4].
   apply andb_prop in Hsd4. destruct Hsd4 as [Hsd4 Hgreedy]. apply andb_prop in Hsd4. destruct Hsd4 as [_ Hsteal].
   (* hypotheses of seq_two_phase *)
   assert (Hab : absentable_ok e f (length root) (root ++ adds)).
@@ -419,9 +417,6 @@ Proof.
       apply (disjoint_has_tag f _ _ x (Hsteal a Ha) Ht). }
   destruct (seq_two_phase numeric e f root adds ch fields Hab Hnd' Hdisj Hr)
     as (xs2 & vals1 & un1 & Hl1 & Hnm & Hxs2 & vals2 & un2 & Hl2 & Hcanon).
-  (* behaviour of the members *)
-  assert (Hbeh : behaves (tr_of numeric e f) (fun m o => decb f None (m_ty m) data o) data (root ++ adds) ch).
-  { apply members_behave; assumption. }
   cbv zeta. set (decm := fun (m : member_of ty) (o : nat) => decb f None (m_ty m) data o) in *.
   (* phase 1 *)
   unfold decode_members at 1.
@@ -513,10 +508,9 @@ Proof.
 Qed.
 
 Lemma set_contents f root root' ext data q r' endo ch fields used :
-  Acc f ->
   scope_enc numeric e (S f) (TSeq true root ext) = true ->
   scope_dec e (S f) (TSeq true root ext) = true ->
-  compiles e (S f) (TSeq true root ext) = true ->
+  behaves (tr_of numeric e f) (fun m o => decb f None (m_ty m) data o) data (root ++ flat_additions ext) ch ->
   sort_members_ber e f root = Ok root' ->
   data = q ++ children_bytes ch ++ r' ->
   closed endo (length q + length (children_bytes ch))%nat r' ->
@@ -538,14 +532,13 @@ Lemma set_contents f root root' ext data q r' endo ch fields used :
    else match endo with None => Err EDecode | Some en => Ok (v, en) end)
   = Ok (VSeq fields, after_close endo (length q + length (children_bytes ch))).
 Proof.
-  intros IH Hse Hsd Hcp Hsort Hd Hcl Hw Hr Hused Hown.
-  cbn [scope_enc] in Hse. cbn [scope_dec] in Hsd. cbn [compiles] in Hcp.
+  intros Hse Hsd Hbeh Hsort Hd Hcl Hw Hr Hused Hown.
+  cbn [scope_enc] in Hse. cbn [scope_dec] in Hsd.
   change (additions_flat ext) with (flat_additions ext).
   change (members_of root ext) with (root ++ flat_additions ext).
   remember (flat_additions ext) as adds eqn:Eadds0.
   apply andb_prop in Hse. destruct Hse as [Hnd Hse].
-  apply andb_prop in Hcp. destruct Hcp as [Hcp _].
-  apply andb_prop in Hsd. destruct Hsd as [Hsd Hsd4]. apply andb_prop in Hsd. destruct Hsd as [Hsd Hsd3].
+  apply andb_prop in Hsd. destruct Hsd as [Hsd Hsd4].
   apply andb_prop in Hsd4. destruct Hsd4 as [Hpw Hgreedy].
   pose proof (sort_members_ber_perm f root root' Hsort) as Hperm.
   assert (Hnd' : NoDup (map (@m_name ty) (root ++ adds))) by (apply nodupb_NoDup; exact Hnd).
@@ -562,8 +555,6 @@ Proof.
   assert (Hincl : incl (root' ++ adds) (root ++ adds)).
   { intros m Hm. apply in_app_or in Hm. apply in_or_app. destruct Hm as [Hm|Hm]; [left|right; exact Hm].
     eapply Permutation_in; [exact Hperm | exact Hm]. }
-  assert (Hbeh : behaves (tr_of numeric e f) (fun m o => decb f None (m_ty m) data o) data (root ++ adds) ch).
-  { apply members_behave; assumption. }
   cbv zeta. set (decm := fun (m : member_of ty) (o : nat) => decb f None (m_ty m) data o) in *.
   destruct (members_loop_tloop (tr_of numeric e f) decm data endo (S (length (root' ++ adds))) (root' ++ adds) ch q r'
                                [] [] vals un (length q) false Hd Hcl Hw)
@@ -662,6 +653,12 @@ Proof.
     rewrite Hx in Hw |- *. cbn [btag fst snd] in *.
     set (cx := fst (btag x)) in *. set (nx := snd (btag x)) in *.
     assert (Hwch : forallb bwf ch = true) by (destruct l; [apply bwf_cons_def in Hw | apply bwf_cons_indef in Hw]; tauto).
+    assert (Hbehave : forall data, behaves (tr_of numeric e f) (fun m o => decb f None (m_ty m) data o) data
+                                           (root ++ flat_additions ext) ch).
+    { intros data. pose proof Hse as Hse'. pose proof Hsd as Hsd'. pose proof Hcp as Hcp'.
+      apply andb_prop in Hse'. destruct Hse' as [_ Hse']. apply andb_prop in Hsd'. destruct Hsd' as [Hsd' _].
+      apply andb_prop in Hcp'. destruct Hcp' as [Hcp' _].
+      apply members_behave; assumption. }
     destruct isset.
     + (* SET *)
       destruct (read_set e f (rd f) (length root) false (root ++ flat_additions ext) ch) as [[fields used]|] eqn:Ers;
@@ -682,10 +679,10 @@ Proof.
         replace (length p + length (identifier cx true nx) + length lo)%nat with (length q)
           by (unfold q; rewrite !app_length; lia).
         pose proof (set_contents f root root' ext (p ++ identifier cx true nx ++ lo ++ concat (map bser ch) ++ r)
-                                 q r (Some (length q + length (concat (map bser ch)))%nat) ch fields used IH) as Hsc.
-        cbn [scope_enc scope_dec compiles] in Hsc. cbv zeta in Hsc. rewrite Hsc; try assumption.
+                                 q r (Some (length q + length (concat (map bser ch)))%nat) ch fields used) as Hsc.
+        cbn [scope_enc scope_dec] in Hsc. cbv zeta in Hsc. rewrite Hsc; try assumption.
         -- cbn [bind after_close]. f_equal. f_equal. unfold q, children_bytes. rewrite !app_length. lia.
-        -- rewrite Esort. exact Hcp.
+        -- apply Hbehave.
         -- unfold q, children_bytes. rewrite <- !app_assoc. reflexivity.
         -- cbn [closed]. reflexivity.
       * cbn [bser]. rewrite <- !app_assoc. cbn [app].
@@ -695,11 +692,11 @@ Proof.
         replace (S (length p + length (identifier cx true nx))) with (length q)
           by (unfold q; rewrite !app_length; cbn [length]; lia).
         pose proof (set_contents f root root' ext (p ++ identifier cx true nx ++ 128 :: concat (map bser ch) ++ 0 :: 0 :: r)
-                                 q (0 :: 0 :: r) None ch fields used IH) as Hsc.
-        cbn [scope_enc scope_dec compiles] in Hsc. cbv zeta in Hsc. rewrite Hsc; try assumption.
+                                 q (0 :: 0 :: r) None ch fields used) as Hsc.
+        cbn [scope_enc scope_dec] in Hsc. cbv zeta in Hsc. rewrite Hsc; try assumption.
         -- cbn [bind after_close]. f_equal. f_equal. unfold q, children_bytes. rewrite !app_length. cbn [length].
            rewrite !app_length. cbn [length]. lia.
-        -- rewrite Esort. exact Hcp.
+        -- apply Hbehave.
         -- unfold q, children_bytes. rewrite <- !app_assoc. reflexivity.
         -- cbn [closed]. eexists; reflexivity.
     + (* SEQUENCE *)
@@ -716,10 +713,11 @@ Proof.
         replace (length p + length (identifier cx true nx) + length lo)%nat with (length q)
           by (unfold q; rewrite !app_length; lia).
         pose proof (sequence_contents f root ext (p ++ identifier cx true nx ++ lo ++ concat (map bser ch) ++ r)
-                                      q r (Some (length q + length (concat (map bser ch)))%nat) ch fields IH) as Hsc.
+                                      q r (Some (length q + length (concat (map bser ch)))%nat) ch fields) as Hsc.
         cbn [scope_enc scope_dec compiles] in Hsc. cbv zeta in Hsc.
         rewrite Hsc; try assumption.
         -- cbn [bind after_close]. f_equal. f_equal. unfold q, children_bytes. rewrite !app_length. lia.
+        -- apply Hbehave.
         -- unfold q, children_bytes. rewrite <- !app_assoc. reflexivity.
         -- cbn [closed]. reflexivity.
       * cbn [bser]. rewrite <- !app_assoc. cbn [app].
@@ -729,11 +727,12 @@ Proof.
         replace (S (length p + length (identifier cx true nx))) with (length q)
           by (unfold q; rewrite !app_length; cbn [length]; lia).
         pose proof (sequence_contents f root ext (p ++ identifier cx true nx ++ 128 :: concat (map bser ch) ++ 0 :: 0 :: r)
-                                      q (0 :: 0 :: r) None ch fields IH) as Hsc.
+                                      q (0 :: 0 :: r) None ch fields) as Hsc.
         cbn [scope_enc scope_dec compiles] in Hsc. cbv zeta in Hsc.
         rewrite Hsc; try assumption.
         -- cbn [bind after_close]. f_equal. f_equal. unfold q, children_bytes. rewrite !app_length. cbn [length].
            rewrite !app_length. cbn [length]. lia.
+        -- apply Hbehave.
         -- unfold q, children_bytes. rewrite <- !app_assoc. reflexivity.
         -- cbn [closed]. eexists; reflexivity.
   - (* TSeqOf *)
